@@ -113,4 +113,18 @@ theorem C05_trailing_invisible_keeps_semicolon :
     childrenLoop .compressed 2 (.cons (.decl ['b'] false (.atom (.raw ['c']))) .nil) = ['b', ':', 'c'] := by
   decide +kernel
 
+/-- PARTIAL Sass-freeness, for the model alphabet: a placeholder selector `%name` is never printed —
+    no `%` reaches the output of a selector unless one of its opaque texts (`selTexts`: the text of
+    the visible simple selectors and the combinator characters) contains one.  The other Sass-only
+    constructs (`&`, `$var`, `#{…}`, Sass at-rules) have no constructor in the flattened tree, so the
+    model cannot print them except from opaque texts; the full scanner predicate `sassFree` is
+    evaluated by the driver on grass's output, not proved. -/
+theorem C05_sass_free_partial (st : Style) (sel : Selector) (h : ∀ s ∈ selTexts sel, '%' ∉ s) :
+    '%' ∉ selectorOut st sel := pct_selectorOut st sel h
+
+example : selTexts [⟨false, [.compound [.text ['a']]]⟩, ⟨false, [.compound [.placeholder ['p']], .compound [.text ['b']]]⟩]
+      = [['a'], ['b']] ∧
+    selectorOut .expanded [⟨false, [.compound [.text ['a']]]⟩,
+      ⟨false, [.compound [.placeholder ['p']], .compound [.text ['b']]]⟩] = ['a'] := by decide +kernel
+
 end Grass.Serialize
